@@ -371,12 +371,13 @@ func runC14Trav(sc C14Sc, c *kit.Case) *kit.Violation {
 	base := sv.C.Census()
 	net1 := newSimNet(sv)
 	fn := addFriendlyNet(net1, nNodes, func(i int, q SimQuery) bool { return sc.Fault == "silent" })
+	fn.Mapped = sc.At%3 == 1
 	const heldValue = "9:c14-value"
 	if sc.At%2 == 0 {
 		fn.Value = heldValue // every node holds the item a get asks for: several holders answer at once
 	}
 	var mu sync.Mutex
-	writes := 0
+	writes, totalWrites := 0, 0
 	closedNow := false
 	perT := map[string]int{}
 	var cancel context.CancelFunc
@@ -387,6 +388,7 @@ func runC14Trav(sc C14Sc, c *kit.Case) *kit.Violation {
 			return nil
 		}
 		writes++
+		totalWrites++
 		perT[o.To.String()+"|"+m.T]++
 		switch {
 		case sc.Fault == "write-error" && writes == sc.At:
@@ -479,15 +481,32 @@ func runC14Trav(sc C14Sc, c *kit.Case) *kit.Violation {
 			sv.S.Close()
 		}
 		var err error
-		select {
-		case err = <-done:
-		case <-time.After(30 * time.Second):
-			cf()
-			if ok, who := sv.C.AllBlocked(); !ok {
-				c.Inconclusive = what + ": still running after 30 s with runnable goroutines: " + who
-				return nil
+		// an operation over n addresses queries each at most once per lookup (a handful of lookups per
+		// operation): one that keeps writing far beyond that is not going to end
+		runaway := time.NewTicker(20 * time.Millisecond)
+		defer runaway.Stop()
+		giveUp := time.After(30 * time.Second)
+	waitOp:
+		for {
+			select {
+			case err = <-done:
+				break waitOp
+			case <-runaway.C:
+				mu.Lock()
+				tw := totalWrites
+				mu.Unlock()
+				if tw > 200*(nNodes+2)*(rep+1) {
+					cf()
+					return kit.Violatef("C14:operation-keeps-querying", "%s: %d query datagrams written for %d known addresses and the call has not returned", what, tw, nNodes)
+				}
+			case <-giveUp:
+				cf()
+				if ok, who := sv.C.AllBlocked(); !ok {
+					c.Inconclusive = what + ": still running after 30 s with runnable goroutines: " + who
+					return nil
+				}
+				return kit.Violatef("C14:operation-never-returned", "%s: the call did not return although every module goroutine is blocked", what)
 			}
-			return kit.Violatef("C14:operation-never-returned", "%s: the call did not return although every module goroutine is blocked", what)
 		}
 		cf()
 		what += fmt.Sprintf(": returned err=%v", err)
